@@ -79,7 +79,8 @@ LAST_ERROR = [""]
 LAST_CALL: list = [None]     # how to repeat the most recent exchange (-> outcome of its last call)
 
 
-def low_level(sign: bool, mangles: list[t.Optional[t.Callable[[bytes, list[bytes]], bytes]]], opnum: int = 0) -> list[str]:
+def low_level(sign: bool, mangles: list[t.Optional[t.Callable[[bytes, list[bytes]], bytes]]], opnum: int = 0, keep_going: bool = False,
+              not_last: bool = False) -> list[str]:
     """Performs len(mangles) consecutive requests on one connection; mangles[i] rewrites reply i.
     -> outcome per call ('authentic' | 'different' | 'error'); stops at the first error."""
     from dpapi_ng._gkdi import ISD_KEY
@@ -87,17 +88,20 @@ def low_level(sign: bool, mangles: list[t.Optional[t.Callable[[bytes, list[bytes
     from dpapi_ng._rpc._auth import AuthenticationProvider
 
     def again() -> str:
-        o = low_level(sign, mangles, opnum)
+        o = low_level(sign, mangles, opnum, keep_going, not_last)
         return o[-1] if len(o) == len(mangles) or o[-1] == "error" else "error"
 
     LAST_CALL[0] = again
     dc = _dc(sign)
+    dc.reply_not_last = not_last
     conn = refdc.Connection(dc, 49664, 1)
     history: list[bytes] = []
     state = {"i": 0}
 
     def mangle(kind: str, reply: bytes, c: refdc.Connection) -> bytes:
-        if kind != "response":
+        if kind not in ("response", "fault"):
+            return reply
+        if kind == "fault" and not (state["i"] < len(mangles) and getattr(mangles[state["i"]], "any_reply", False)):
             return reply
         i = state["i"]
         state["i"] += 1
@@ -122,7 +126,8 @@ def low_level(sign: bool, mangles: list[t.Optional[t.Callable[[bytes, list[bytes
         except (Exception, taps.Hang) as e:  # noqa
             outs.append("error")
             LAST_ERROR[0] = f"{type(e).__name__}: {e}"
-            break
+            if not keep_going:
+                break
     return outs
 
 
@@ -274,6 +279,33 @@ def run(ctx: Ctx) -> int:
                 outs = low_level(sign, pre + [lambda rep, hist, bit=bit: flip(rep, bit)])
                 add(sign, call, "flip", region, bit - lo * 8, outs[-1] if len(outs) == call else "error", "rpc")
                 ctx.distinct((sign, call, region, bit))
+    # a genuine sealed reply marked "not the last fragment" followed by a cleartext fragment with the adversary's stub: whatever
+    # the client makes of fragments, nothing the adversary wrote may come back
+    def with_clear_fragment(rep: bytes, hist: list) -> bytes:
+        evil = b"EVIL-STUB" * 8
+        return rep + refdc.finish_pdu(refdc.PT_RESPONSE, refdc.PFC_LAST, struct.unpack("<I", rep[12:16])[0], refdc.response_body(evil))
+
+    for sign in (True, False):
+        for call in (1, 2):
+            # the server itself marks its (sealed, genuine) reply as not being the last fragment
+            outs = low_level(sign, [None] * (call - 1) + [with_clear_fragment], not_last=True)
+            add(sign, call, "append_fragment", "none", -1, outs[-1] if len(outs) == call else "error", "rpc")
+    # a second request on the same client object after a reply was rejected: still only sealed replies are accepted, whatever
+    # the client sent (the adversary answers by itself, also when the DC would have faulted the request)
+    def own_clear(rep: bytes, hist: list) -> bytes:
+        return refdc.finish_pdu(refdc.PT_RESPONSE, 3, struct.unpack("<I", rep[12:16])[0], refdc.response_body(b"EVIL-STUB" * 8))
+
+    def own_bogus(rep: bytes, hist: list) -> bytes:
+        body = (b"EVIL-STUB" * 8).ljust(80, b"\x00")
+        tr = refdc.sec_trailer(10, 6, 8, 0, b"\x01" + b"\x00" * 15)
+        return refdc.finish_pdu(refdc.PT_RESPONSE, 3, struct.unpack("<I", rep[12:16])[0], refdc.response_body(body), tr)
+
+    own_clear.any_reply = own_bogus.any_reply = True        # type: ignore
+    for sign in (True, False):
+        lo, hi = reg["sig"]
+        for second, act2 in ((own_clear, "inject_clear"), (own_bogus, "inject_bogus_trailer")):
+            outs = low_level(sign, [lambda rep, hist: flip(rep, lo * 8 + 3), second], keep_going=True)
+            add(sign, 2, act2, "none", -1, outs[-1] if len(outs) == 2 else "error", "rpc-after-error")
     # replies without stub octets (an operation without out-parameters): the verifier still has to be checked
     for sign in (True, False):
         outs = low_level(sign, [None, None], refdc.EMPTY_REPLY_OPNUM)
